@@ -31,6 +31,7 @@ type c10Case struct {
 	Mode      string   `json:"mode"`
 	Elected   bool     `json:"after_election"`
 	Removed   bool     `json:"after_proposer_removal,omitempty"` // the proposer was removed from the group; its first voter stepped in
+	Shared    bool     `json:"validator_account_is_relayer_proposer,omitempty"` // one key for both roles
 	WantAdmit bool     `json:"reference_admits"`
 	reason    string   // why the implementation refused it (its own log text)
 }
@@ -196,7 +197,7 @@ func c10Build(w *enga.World, c *c10Case) ([]byte, sim.Key) {
 	if hasAcc {
 		num, seq, _ = w.N.Account(w.N.Ctx(), key.Addr())
 	}
-	if c.Signer == "consensus-proposer" && !hasEth && (c.Mode == "process" || c.Mode == "finalize") {
+	if (c.Signer == "consensus-proposer" || (c.Shared && c.Signer == "relayer-proposer")) && !hasEth && (c.Mode == "process" || c.Mode == "finalize") {
 		seq++ // the block message of the same signer comes first in the block
 	}
 	signKey := key
@@ -297,7 +298,7 @@ func c10Eval(w *enga.World, c *c10Case) (admitted bool, foreignEffect string) {
 		c.reason = fr.TxResults[len(fr.TxResults)-1].Log
 		_, seqAfter, _ := w.N.Account(w.N.Ctx(), key.Addr())
 		want := seqBefore + 1
-		if c.Signer == "consensus-proposer" && !hasEth {
+		if (c.Signer == "consensus-proposer" || (c.Shared && c.Signer == "relayer-proposer")) && !hasEth {
 			want++ // its block message was executed first
 		}
 		// admitted by the ante chain <=> the signer's sequence was consumed (also when a message fails later)
@@ -337,7 +338,7 @@ func c10Eval(w *enga.World, c *c10Case) (admitted bool, foreignEffect string) {
 }
 
 func runC10(r *mc.Run) {
-	r.Rule = "every sdk.Msg implementation registered in the application's interface registry (discovered at run time) x signer class (relayer proposer, other relayer member, consensus proposer, other validator, account-less key) x memo x timeout height {0,h-2,h-1,h,h+1} x signature {valid, wrong key, wrong sequence} x mode {CheckTx, prepare via mempool, ProcessProposal, FinalizeBlock}, before and after a relayer election, and after the proposer itself was removed from the group (its first voter stepping in without an election; signer classes then include the removed ex-proposer); compositions (allowed+allowed, allowed+foreign, block-message+allowed, allowed+block-message, two message signers that both sign, a separate fee payer that co-signs - also for the block message alone and for two block messages of two accounts); ReCheck after an election and after the timeout height has passed (control: one block earlier it is still admitted); oracle = admission predicate from the statement; foreign messages must leave every store equal to the same block without them"
+	r.Rule = "every sdk.Msg implementation registered in the application's interface registry (discovered at run time) x signer class (relayer proposer, other relayer member, consensus proposer, other validator, account-less key) x memo x timeout height {0,h-2,h-1,h,h+1} x signature {valid, wrong key, wrong sequence} x mode {CheckTx, prepare via mempool, ProcessProposal, FinalizeBlock}, before and after a relayer election, and after the proposer itself was removed from the group (its first voter stepping in without an election; signer classes then include the removed ex-proposer), and on a chain whose validator account is also the relayer proposer (relayer messages x signature classes x modes); compositions (allowed+allowed, allowed+foreign, block-message+allowed, allowed+block-message, two message signers that both sign, a separate fee payer that co-signs - also for the block message alone and for two block messages of two accounts); ReCheck after an election and after the timeout height has passed (control: one block earlier it is still admitted); oracle = admission predicate from the statement; foreign messages must leave every store equal to the same block without them"
 	r.Assumptions = []string{"CheckTx is exercised on an application that has committed a block (a freshly restarted App checks at height 0 until its first commit: SDK behaviour)", "ReCheck only concerns transactions previously admitted by CheckTx"}
 	base, err := enga.NewWorld(c08Cfg())
 	if err != nil {
@@ -415,14 +416,30 @@ func runC10(r *mc.Run) {
 			}
 		}
 	}
+	// fourth state: the validator's account is also the relayer proposer (one key for both roles).
+	// In a block its transactions follow its own block message, so they carry the next sequence
+	// number; nothing else changes: signature and sequence of every transaction are checked.
+	for _, u := range urls {
+		if !isRelayerNS(u) {
+			continue
+		}
+		for _, sg := range []string{"valid", "wrong-key", "wrong-sequence"} {
+			for _, md := range modes {
+				for _, s := range []string{"relayer-proposer", "other-relayer-member"} {
+					cases = append(cases, &c10Case{Msgs: []string{u}, Signer: s, Timeout: "0", Sig: sg, Mode: md, Shared: true})
+				}
+			}
+		}
+	}
 	for _, c := range cases {
 		c.WantAdmit = c10Ref(c)
 	}
 	r.States.Store(int64(len(cases)))
 	var mu sync.Mutex
-	pools := map[[2]bool][]*enga.World{}
-	get := func(el, removed bool) *enga.World {
-		k := [2]bool{el, removed}
+	pools := map[[3]bool][]*enga.World{}
+	get := func(el, removed bool, sh ...bool) *enga.World {
+		shared := len(sh) > 0 && sh[0]
+		k := [3]bool{el, removed, shared}
 		mu.Lock()
 		if l := pools[k]; len(l) > 0 {
 			w := l[len(l)-1]
@@ -432,14 +449,15 @@ func runC10(r *mc.Run) {
 		}
 		mu.Unlock()
 		// a warmed world: own App that has committed blocks (not a fork), so CheckTx runs at a real height
-		w, err := enga.NewWorld(c08Cfg())
+		w, err := enga.NewWorld(c10Cfg(shared))
 		must(err)
 		c10Prepare(w, el, removed)
 		return w
 	}
-	put := func(el, removed bool, w *enga.World) {
+	put := func(el, removed bool, w *enga.World, sh ...bool) {
+		k := [3]bool{el, removed, len(sh) > 0 && sh[0]}
 		mu.Lock()
-		pools[[2]bool{el, removed}] = append(pools[[2]bool{el, removed}], w)
+		pools[k] = append(pools[k], w)
 		mu.Unlock()
 	}
 	{
@@ -459,7 +477,7 @@ func runC10(r *mc.Run) {
 	}
 	mc.Parallel(len(cases), runtime.NumCPU()*2, func(i int) {
 		c := cases[i]
-		w := get(c.Elected, c.Removed)
+		w := get(c.Elected, c.Removed, c.Shared)
 		reusable := c.Mode == "process"
 		admitted, eff := c10Eval(w, c)
 		r.Transitions.Add(1)
@@ -479,7 +497,7 @@ func runC10(r *mc.Run) {
 			reusable = w.N.App.Mempool().CountTx() == 0
 		}
 		if reusable {
-			put(c.Elected, c.Removed, w)
+			put(c.Elected, c.Removed, w, c.Shared)
 		} else {
 			w.Close()
 		}
@@ -493,6 +511,11 @@ func runC10(r *mc.Run) {
 		}
 		if eff != "" {
 			r.Violate(mc.Violation{Class: "foreign-message-changed-state:" + strings.Join(c.Msgs, "+"), Msg: fmt.Sprintf("%s | case %+v", eff, *c), Detail: c}, nil)
+		}
+		if c.Shared && c.Mode == "prepare" && !admitted {
+			// a proposer leaves its own account's pending transactions out of the block it builds (they
+			// would collide with its block message's sequence number): "only if", not "if"
+			return
 		}
 		if admitted != c.WantAdmit {
 			cls := "admitted-against-the-rules"
@@ -590,6 +613,15 @@ func c10Recheck(r *mc.Run) {
 }
 
 // c10Prepare brings a fresh world into the state a case is delivered in.
+// c10Cfg is the genesis of a C10 state.
+func c10Cfg(shared bool) *sim.GenesisCfg {
+	g := c08Cfg()
+	if shared {
+		g.Proposer = sim.Member{Key: g.Vals[g.NodeVal].Key, BLS: sim.NewBLSKey("relayer-0")}
+	}
+	return g
+}
+
 func c10Prepare(w *enga.World, elected, removed bool) {
 	w.Run(enga.ABlock{}) // height 2, so that h-2 is a real (expired) timeout height
 	switch {
@@ -611,7 +643,7 @@ func replayC10(detail json.RawMessage) (bool, string) {
 	if err := json.Unmarshal(detail, &c); err != nil || len(c.Msgs) == 0 {
 		return false, "re-run bin/check C10 quick"
 	}
-	w, err := enga.NewWorld(c08Cfg())
+	w, err := enga.NewWorld(c10Cfg(c.Shared))
 	if err != nil {
 		return false, err.Error()
 	}
